@@ -3,8 +3,16 @@
 Generator: (a) hand-built earthkit graphs (any arity, statics / None / strings that do or do not
 name inputs, placeholders in any position, repeated or missing, keyword arguments, default /
 named / numeric / unsorted / duplicate / empty output lists, outputs consumed by several nodes or
-by none, 1..30 outputs), every node with a recorder callable of a chosen behaviour (returns,
-raises, generator with k yields that then stops or raises, tuple of k); (b) graphs built by the
+by none, 1..30 outputs), every node with a recorder callable of a chosen behaviour: raises; returns a token, a
+literal VALUE (None, falsy values, strings, container literals), an opaque object (function, class, async generator);
+returns an OBJECT of some python kind that holds k values -- iterable containers (tuple, list, dict, dict view, deque,
+object ndarray, a class with a generator __iter__), ITERATORS that are not generator objects (iter(list), iter(tuple),
+map, filter, itertools.islice / chain, reversed, dict iterator, a class with __next__, io.StringIO and an open text
+file with k lines), an instance of collections.abc.Generator that is not a generator object, a __getitem__-only
+sequence -- whose iteration then stops or raises; is a generator (a function handing out a generator object, a
+generator FUNCTION, a generator of literal values) with k yields that then stops or raises.  For one declared output
+the returned object IS the value unless it is a generator object; the kind x count x outputs matrix is run
+exhaustively in a small scope (kind_matrix_specs); (b) graphs built by the
 fluent API (from_source / map with yields of 1..101 coordinates, explicit input placeholders);
 (c) hand-written JobInstances (keyword edges, sparse positional statics, malformed edges);
 (d) fluent.Node constructor parameters; (e) programs of the fluent API in which the caller's objects are
@@ -22,7 +30,8 @@ once in topological order, and controller.notify.is_last_output_of for every dat
 Oracle (direct reading of the property, computed from the graph objects, not from the model):
 one task per node, one edge per placeholder of an input with the declared parent output as its
 source, statics kept, the callable receives exactly the declared arguments with upstream values
-(by direct evaluation of the graph) in the declared positions, the i-th yielded value is stored
+(by direct evaluation of the graph) in the declared positions, a node with one output that is not a generator stores
+the very object its callable returned (identity) and run returns normally, the i-th yielded value is stored
 under the output declared for it (fluent: under the i-th coordinate), a count mismatch makes run
 raise, the last handled output is the one is_last_output_of names.  For (e) and (f) "declared" is what the
 AUTHOR declared through the API -- the arguments given to Payload(...) plus placeholders for the node's own
@@ -40,6 +49,7 @@ from common import cN, cbool, clist, cnat, copt, coq_results, cstr, load_finding
 TRUSTED = [
     "harness/c10.py: recorder callables (return/yield integer tokens naming producer and yield index; calls logged through "
     "the builtins module because the callable is cloudpickled), the literal pool (a value is identified by class and repr), "
+    "the factory mkobj of returned objects (a returned object is identified by identity), "
     "identity-based conversion of real Graph objects into the id-addressed store of Graph/GStore.v, dict-backed Memory "
     "(handle records, provide raises KeyError on a missing dataset); the hashed node names of fluent graphs are replaced by short "
     "injective aliases in the Coq terms (the model only compares node names for equality)",
@@ -52,7 +62,11 @@ ASSUMPTIONS = [
     "for fluent nodes the theorem C10_fluent_yield_binding derives list order = coordinate order from the zero-padded names",
     "Memory is modelled as far as runner.run uses it (local[id] = value, provide = lookup); shm publication, serde and cloudpickle of the callable are not modelled",
     "graph traversal / serialise is the model of Graph/GStore.v + Graph/Export.v (C12); pydantic validation of JobInstance / Task2TaskEdge is not modelled",
-    "a generator (inspect.isgenerator) is distinguished from other iterables by the `gen` flag of Iter; recorder behaviours gen/genlen are generators, tuple is not",
+    "the object a callable returns carries its kind (Low/Runner.v ikind: generator object | collections.abc.Generator instance | other iterator | iterable "
+    "without __next__ | __getitem__ sequence) or is not iterable; the code's test inspect.isgenerator is a parameter of run_task_with, run_task is its "
+    "instance is_generator; recorder behaviours gen/genfn/genv/genlen are generator objects, every kind of OBJ_KINDS / LINE_KINDS in harness/c10.py is mapped "
+    "to its ikind by hand (that mapping is trusted; it is what isinstance / inspect say about those Python objects)",
+    "iterating a returned object does not depend on when it happens and has no effect on other objects (the recorder objects are fresh per call)",
     "sink_input_ps is a natural number (negative positions of hand-written edges are outside the model)",
     "Low/FluentBuild.v: only list objects live on the modelled heap (Payload.args); kwargs dicts are values (the modelled code never writes to one); "
     "a functools.partial given to Payload / Node is its (func, args, keywords); the inputs of a Node are represented by their number",
@@ -69,7 +83,10 @@ Open Scope string_scope.
 # (the former finding single-coordinate-yields-stores-generator-object is fixed by 62ec2b5: a generator is iterated also for a single output)
 
 # ------------------------------------------------------------------------------ values
-LITS = ["0", "1", "-5", "2.5", "True", "b'x'", "(1, 2)", "[1, 2]", "{'k': 1}", "7", "''"]
+LITS = ["0", "1", "-5", "2.5", "True", "b'x'", "(1, 2)", "[1, 2]", "{'k': 1}", "7", "''",
+        # (from here on: only RETURNED by callables, never drawn as arguments)
+        "2", "[]", "()", "{}", "False", "0.0", "[1, 0]", "b''"]
+NLIT_ARGS = 10      # the literals 0..9 are drawn as static arguments
 POOL = [eval(s) for s in LITS]
 CANON = {(type(v).__name__, repr(v)): i for i, v in enumerate(POOL)}
 EXNS = ["KeyError", "ZeroDivisionError", "ValueError", "RuntimeError", "TypeError"]
@@ -117,6 +134,230 @@ def canon(v):
     raise ValueError(f"value outside the pool: {v!r}")
 
 
+# ------------------------------------------------------------------------------ kinds of returned objects
+# python kind -> (kind of the model (Low/Runner.v ikind), can end its iteration with an exception)
+OBJ_KINDS = {
+    # iterable containers / objects with __iter__ only
+    "list": ("KIterable", False), "dict": ("KIterable", False), "dictkeys": ("KIterable", False), "deque": ("KIterable", False),
+    "ndarray": ("KIterable", False), "iterclass": ("KIterable", True),
+    # iterators that are not generator objects
+    "listiter": ("KIterator", False), "tupleiter": ("KIterator", False), "map": ("KIterator", False), "filter": ("KIterator", False),
+    "islice": ("KIterator", False), "chain": ("KIterator", False), "reversed": ("KIterator", False), "dictiter": ("KIterator", False),
+    "classiter": ("KIterator", True),
+    # instances of collections.abc.Generator that are not generator objects
+    "genlike": ("KGenLike", True),
+    # old sequence protocol: __getitem__ only
+    "getitem": ("KSequence", True),
+}
+LINE_KINDS = {"stringio": "KIterator", "textfile": "KIterator"}       # file-likes: iterating yields their lines (str)
+OPAQUE_KINDS = ["asyncgen", "function", "genfunc", "object", "class", "partial"]     # iter() raises TypeError
+ITERATOR_KINDS = [k for k, (m, _) in OBJ_KINDS.items() if m in ("KIterator", "KGenLike")]
+
+
+class _ClassIter:
+    """an iterator written as a class: __iter__ returns self, __next__"""
+
+    def __init__(self, toks, fin):
+        self.t, self.i, self.fin = list(toks), 0, fin
+
+    def __iter__(self):
+        return self
+
+    def __next__(self):
+        if self.i < len(self.t):
+            self.i += 1
+            return self.t[self.i - 1]
+        if self.fin is not None:
+            fin, self.fin = self.fin, None
+            raise getattr(builtins, fin)("c10")
+        raise StopIteration
+
+
+def _genlike_class():
+    import collections.abc
+
+    class _GenLike(collections.abc.Generator):
+        """isinstance(x, typing.Generator) holds, inspect.isgenerator(x) does not"""
+
+        def __init__(self, toks, fin):
+            self.t, self.i, self.fin = list(toks), 0, fin
+
+        def send(self, value):
+            if self.i < len(self.t):
+                self.i += 1
+                return self.t[self.i - 1]
+            if self.fin is not None:
+                fin, self.fin = self.fin, None
+                raise getattr(builtins, fin)("c10")
+            raise StopIteration
+
+        def throw(self, typ=None, val=None, tb=None):
+            self.i, self.fin = len(self.t), None
+            return super().throw(typ, val, tb)
+    return _GenLike
+
+
+_GenLike = _genlike_class()
+
+
+class _IterClass:
+    """a re-iterable object: __iter__ is a generator function, there is no __next__"""
+
+    def __init__(self, toks, fin):
+        self.t, self.fin = list(toks), fin
+
+    def __iter__(self):
+        yield from self.t
+        if self.fin is not None:
+            raise getattr(builtins, self.fin)("c10")
+
+
+class _GetItem:
+    """iterable only through __getitem__ (not an instance of collections.abc.Iterable)"""
+
+    def __init__(self, toks, fin):
+        self.t, self.fin = list(toks), fin
+
+    def __getitem__(self, i):
+        if i < len(self.t):
+            return self.t[i]
+        if self.fin is not None:
+            raise getattr(builtins, self.fin)("c10")
+        raise IndexError(i)
+
+
+def mkobj(kind, toks, fin=None):
+    """a fresh object of python kind `kind` holding the values toks"""
+    import collections
+    import functools
+    import io
+    import itertools
+    toks = list(toks)
+    if kind == "list":
+        return list(toks)
+    if kind == "tuple":
+        return tuple(toks)
+    if kind == "dict":
+        return dict.fromkeys(toks)
+    if kind == "dictkeys":
+        return dict.fromkeys(toks).keys()
+    if kind == "deque":
+        return collections.deque(toks)
+    if kind == "ndarray":
+        import numpy as np
+        a = np.empty((len(toks),), dtype=object)
+        for i, t in enumerate(toks):
+            a[i] = t
+        return a
+    if kind == "iterclass":
+        return _IterClass(toks, fin)
+    if kind == "listiter":
+        return iter(list(toks))
+    if kind == "tupleiter":
+        return iter(tuple(toks))
+    if kind == "map":
+        return map(int, toks)
+    if kind == "filter":
+        return filter(None, toks)
+    if kind == "islice":
+        return itertools.islice(toks + [0, 0], len(toks))
+    if kind == "chain":
+        return itertools.chain(toks[:1], toks[1:])
+    if kind == "reversed":
+        return reversed(toks[::-1])
+    if kind == "dictiter":
+        return iter(dict.fromkeys(toks))
+    if kind == "classiter":
+        return _ClassIter(toks, fin)
+    if kind == "genlike":
+        return _GenLike(toks, fin)
+    if kind == "getitem":
+        return _GetItem(toks, fin)
+    if kind == "stringio":
+        return io.StringIO("".join(toks))
+    if kind == "textfile":
+        import tempfile
+        f = tempfile.TemporaryFile("w+")
+        f.write("".join(toks))
+        f.seek(0)
+        return f
+    if kind == "asyncgen":
+        async def ag():
+            yield 1
+        return ag()
+    if kind == "function":
+        return lambda: toks
+    if kind == "genfunc":
+        def gf():
+            yield 1
+        return gf
+    if kind == "object":
+        return object()
+    if kind == "class":
+        return type("C10Opaque", (), {})
+    if kind == "partial":
+        return functools.partial(int, 1)
+    raise ValueError(kind)
+
+
+builtins._c10_mkobj = mkobj
+
+
+def lines_of(fid, k):
+    """the k lines of the file-like object callable fid returns (the last one without a newline)"""
+    return [f"L{fid}.{i}" + ("\n" if i < k - 1 else "") for i in range(k)]
+
+
+def iter_desc(value):
+    """what iterating a returned literal yields, canonical; None = not iterable; "?" = values outside the pool"""
+    try:
+        it = iter(value)
+    except TypeError:
+        return None
+    try:
+        return [canon(x) for x in it]
+    except ValueError:
+        return "?"
+
+
+def beh_sem(beh, nargs=0):
+    """the meaning of a behaviour: {"raises": exn} | {"ret": canonical value of the returned object or None for
+    `the object callable fid returned`, "isgen": it is a generator object, "ys": what iterating it yields (None = not
+    iterable), "fin": how the iteration ends}"""
+    kind = beh[0]
+    if kind == "raise":
+        return {"raises": beh[1]}
+    if kind in ("ret", "opaque"):
+        return {"ret": None, "isgen": False, "ys": None, "fin": None}
+    if kind in ("gen", "genfn"):
+        return {"ret": None, "isgen": True, "ys": beh[1], "fin": beh[2]}
+    if kind == "genv":
+        return {"ret": None, "isgen": True, "ys": [list(v) for v in beh[1]], "fin": beh[2]}
+    if kind == "genlen":
+        return {"ret": None, "isgen": True, "ys": nargs, "fin": None}
+    if kind == "tuple":
+        return {"ret": None, "isgen": False, "ys": beh[1], "fin": None}
+    if kind == "obj":
+        return {"ret": None, "isgen": False, "ys": beh[2], "fin": beh[3]}
+    if kind == "lines":
+        return {"ret": None, "isgen": False, "ys": [["str", l] for l in beh[2]], "fin": None}
+    if kind == "val":
+        return {"ret": beh[1], "isgen": False, "ys": iter_desc(realise_val(beh[1])), "fin": None}
+    raise ValueError(kind)
+
+
+def sem_of(beh, fid, nargs=0):
+    """beh_sem with the token lists written out"""
+    s = dict(beh_sem(beh, nargs))
+    if "raises" in s:
+        return s
+    if s["ret"] is None:
+        s["ret"] = ["ret", fid]
+    if isinstance(s["ys"], int):
+        s["ys"] = [["yield", fid, i] for i in range(s["ys"])]
+    return s
+
+
 def make_callable(fid, beh):
     """recorder: logs (fid, args, kwargs) at call time, then behaves as `beh` says"""
     kind = beh[0]
@@ -147,6 +388,34 @@ def make_callable(fid, beh):
             r = g()
             b._c10_rets.append((fid, r))
             return r
+    elif kind == "genfn":
+        # the callable IS a generator function (not a function that hands out a generator): its body, and with it the
+        # record of the call, runs when the result is first iterated
+        k, fin = beh[1], beh[2]
+
+        def f(*args, **kwargs):
+            import builtins as b
+            b._c10_log.append((fid, args, kwargs))
+            for i in range(k):
+                yield 1000 * (fid + 1) + i
+            if fin is not None:
+                raise getattr(b, fin)("c10")
+    elif kind == "genv":
+        # a generator that yields literal VALUES (None, falsy values, strings, containers)
+        vals, fin = beh[1], beh[2]
+
+        def f(*args, **kwargs):
+            import builtins as b
+            b._c10_log.append((fid, args, kwargs))
+
+            def g():
+                for v in vals:
+                    yield b._c10_realise(v)
+                if fin is not None:
+                    raise getattr(b, fin)("c10")
+            r = g()
+            b._c10_rets.append((fid, r))
+            return r
     elif kind == "genlen":
         # a parametrised generator: as many values as it received positional arguments
         def f(*args, **kwargs):
@@ -169,11 +438,35 @@ def make_callable(fid, beh):
             r = tuple(1000 * (fid + 1) + i for i in range(k))
             b._c10_rets.append((fid, r))
             return r
+    elif kind in ("obj", "lines", "opaque"):
+        # returns a fresh object of a python kind (OBJ_KINDS / LINE_KINDS / OPAQUE_KINDS) holding k tokens / the given lines
+        pykind = beh[1]
+        fin = beh[3] if kind == "obj" else None
+        k = beh[2] if kind == "obj" else 0
+        lines = list(beh[2]) if kind == "lines" else None
+
+        def f(*args, **kwargs):
+            import builtins as b
+            b._c10_log.append((fid, args, kwargs))
+            r = b._c10_mkobj(pykind, lines if lines is not None else [1000 * (fid + 1) + i for i in range(k)], fin)
+            b._c10_rets.append((fid, r))
+            return r
+    elif kind == "val":
+        # returns a literal: None, a str, an object of the pool (the very object POOL[i])
+        v = beh[1]
+
+        def f(*args, **kwargs):
+            import builtins as b
+            b._c10_log.append((fid, args, kwargs))
+            return b._c10_realise(v)
     else:
         raise ValueError(kind)
     f._c10_fid = fid
     f.__name__ = f"rec{fid}"
     return f
+
+
+builtins._c10_realise = realise_val
 
 
 class FakeMemory:
@@ -202,23 +495,66 @@ def numeric_outs(n, padded):
     return [str(i).zfill(w) for i in range(n)]
 
 
+RETVALS = [["none"], ["none"], ["str", ""], ["str", "a"], ["str", "ab"], ["str", "input0"], ["lit", 0], ["lit", 15], ["lit", 16], ["lit", 3], ["lit", 4],
+           ["lit", 12], ["lit", 14], ["lit", 17], ["lit", 7], ["lit", 6], ["lit", 8], ["lit", 18]]
+# (not the empty tuple: CPython has one `()` object, the recorder behaviour ["tuple", 0] returns the very same one)
+
+
+def gen_obj_beh(rng, k, fin_ok=False, kinds=None):
+    """the callable returns an object of some python kind that holds k values"""
+    r = rng.random()
+    if kinds is None and r < 0.12 and k <= 3:
+        return ["lines", rng.choice(sorted(LINE_KINDS)), lines_of(0, k)]      # (the lines do not name the callable: they are str values)
+    kind = rng.choice(kinds or sorted(OBJ_KINDS))
+    fin = rng.choice(EXNS) if (fin_ok and OBJ_KINDS[kind][1] and rng.random() < 0.5) else None
+    return ["obj", kind, k, fin]
+
+
+def gen_gen_beh(rng, k, fin=None):
+    """a generator of k values: a function handing out a generator object, a generator function, a generator of literal values"""
+    r = rng.random()
+    if r < 0.6:
+        return ["gen", k, fin]
+    if r < 0.8:
+        return ["genfn", k, fin]
+    return ["genv", [rng.choice(RETVALS) for _ in range(k)], fin]
+
+
+def gen_value_beh(rng):
+    """behaviour of a callable whose node declares ONE output and that does not stream: what it returns IS the value --
+    a token, None / a falsy / a str / a container literal, an opaque object, an iterable or iterator object holding 0..3 values"""
+    r = rng.random()
+    if r < 0.2:
+        return ["val", rng.choice(RETVALS)]
+    if r < 0.3:
+        return ["opaque", rng.choice(OPAQUE_KINDS)]
+    if r < 0.65:
+        return gen_obj_beh(rng, rng.choice([0, 1, 1, 1, 2, 2, 3]), fin_ok=True, kinds=ITERATOR_KINDS if rng.random() < 0.6 else None)
+    return gen_obj_beh(rng, rng.choice([0, 1, 1, 2, 3]), fin_ok=True)
+
+
 def gen_beh(rng, nout, sloppy):
     """behaviour for a node declaring nout (distinct) outputs"""
     r = rng.random()
     if not sloppy:
         if nout == 1:
-            return ["ret"] if r < 0.85 else (["gen", rng.choice([0, 1, 2]), None] if r < 0.95 else ["tuple", 2])
-        return ["gen", nout, None] if r < 0.85 else ["tuple", nout]
+            return ["ret"] if r < 0.45 else (gen_gen_beh(rng, rng.choice([0, 1, 1, 2])) if r < 0.55 else ["tuple", 2] if r < 0.6 else gen_value_beh(rng))
+        # a generator; or (accepted by the runner, not demanded by the property) any other iterable of nout values
+        return gen_gen_beh(rng, nout) if r < 0.7 else ["tuple", nout] if r < 0.8 else gen_obj_beh(rng, nout)
     if r < 0.12:
         return ["raise", rng.choice(EXNS)]
-    if r < 0.2:
+    if r < 0.17:
         return ["ret"]
+    if r < 0.2:
+        return ["opaque", rng.choice(OPAQUE_KINDS)] if rng.random() < 0.5 else ["val", rng.choice(RETVALS)]
     if r < 0.3:
         return ["tuple", max(1, nout + rng.choice([-1, 0, 0, 1]))]
     k = max(0, nout + rng.choice([-2, -1, -1, -1, 0, 1, 1, 2]))
     if rng.random() < 0.1:
         k = 0
-    return ["gen", k, rng.choice(EXNS) if rng.random() < 0.2 else None]
+    if r < 0.5:
+        return gen_obj_beh(rng, k, fin_ok=True)
+    return gen_gen_beh(rng, k, rng.choice(EXNS) if rng.random() < 0.2 else None)
 
 
 def gen_val(rng):
@@ -227,7 +563,7 @@ def gen_val(rng):
         return ["none"]
     if r < 0.35:
         return ["str", rng.choice(STATIC_STRS)]
-    return ["lit", rng.randrange(len(LITS) - 1)]
+    return ["lit", rng.randrange(NLIT_ARGS)]
 
 
 def gen_graph_spec(rng, flavour):
@@ -289,7 +625,8 @@ def gen_shared_spec(rng):
     npool = rng.choice([1, 2, 2, 3])
     behs = {}
     for f in range(npool):
-        behs[f] = rng.choice([["ret"], ["genlen"], ["genlen"], ["gen", rng.choice([2, 3]), None], ["tuple", 2]])
+        behs[f] = rng.choice([["ret"], ["genlen"], ["genlen"], ["gen", rng.choice([2, 3]), None], ["tuple", 2],
+                              gen_obj_beh(rng, rng.choice([1, 2, 3]), kinds=sorted(OBJ_KINDS)), gen_value_beh(rng)])
     fkw = {f: rng.sample(KW_NAMES, rng.choice([0, 0, 1])) for f in range(npool)}
     letters = ["a", "b", "c", "d", "e", "f", "g", "h", "i", "j", "k", "l", "m", "n", "o"]
     n = rng.choice([2, 3, 4, 5, 6])
@@ -305,12 +642,12 @@ def gen_shared_spec(rng):
                     inputs.append([iname, p, rng.choice(avail)])
         args = [["str", iname] for iname, _, _ in inputs]
         for _ in range(rng.choice([0, 1, 2, 3, 11]) if behs[fid][0] == "genlen" else rng.choice([0, 1, 2])):
-            args.append(["lit", rng.randrange(len(LITS) - 1)])
+            args.append(["lit", rng.randrange(NLIT_ARGS)])
         rng.shuffle(args)
         kwnames = fkw[fid] if rng.random() < 0.85 else rng.sample(KW_NAMES, 1)
         kwargs = [[k, gen_val(rng)] for k in kwnames]
         b = behs[fid]
-        k = len(args) if b[0] == "genlen" else b[1] if b[0] in ("gen", "tuple") else 1
+        k = len(args) if b[0] == "genlen" else b[1] if b[0] in ("gen", "tuple") else b[2] if b[0] == "obj" else 1
         if rng.random() < 0.1:
             k = max(1, k + rng.choice([-1, 1]))
         if k <= 1 or (b[0] != "genlen" and rng.random() < 0.3):
@@ -480,9 +817,10 @@ def run_job(job, publish_seed, order=None):
 
 
 # ------------------------------------------------------------------------------ oracle
-def eff_beh(beh, d):
-    """behaviour of the callable on this node: genlen yields one value per positional argument"""
-    return ["gen", len(d["payload"]["args"]), None] if beh[0] == "genlen" else beh
+def node_sem(behs, d):
+    """meaning of the node's callable on this node (genlen yields one value per positional argument)"""
+    fid = d["payload"]["fid"]
+    return sem_of(behs[str(fid)], fid, len(d["payload"]["args"]))
 
 
 def oracle_graph(descs, sinks, fluent_coords, behs, lowered, obs, fails, single=()):
@@ -555,30 +893,30 @@ def oracle_graph(descs, sinks, fluent_coords, behs, lowered, obs, fails, single=
     succeeds = {}     # name -> True if, by the graph's own meaning, the node computes all of its outputs
     value = {}        # (name, output) -> canonical value
     for d in descs:
-        fid = d["payload"]["fid"]
-        beh = eff_beh(behs[str(fid)], d)
+        sem = node_sem(behs, d)
         outs = outs_of(d)
         ok_inputs = all(succeeds[descs[p]["name"]] for _, p, _ in d["inputs"])
         if not ok_inputs:
             succeeds[d["name"]] = False
             continue
-        if beh[0] == "raise":
+        if "raises" in sem:
             succeeds[d["name"]] = False
-        elif len(outs) == 1 and beh[0] != "gen":
-            # a single output and no generator: the returned object is the value
+        elif len(outs) == 1 and not sem["isgen"]:
+            # a single output and no generator: the returned object -- a number, None, a container, an iterator, a file --
+            # is the value
             succeeds[d["name"]] = True
-            value[(d["name"], outs[0])] = ["ret", fid]
+            value[(d["name"], outs[0])] = sem["ret"]
         else:
-            k = beh[1] if beh[0] in ("gen", "tuple") else None
-            good = k == len(outs) and not (beh[0] == "gen" and beh[2] is not None)
-            if good and beh[0] == "tuple":
-                # the property speaks of generators; that a returned tuple is accepted is not demanded, only
-                # that IF run accepts it the values are bound correctly
+            ys = sem["ys"]
+            good = isinstance(ys, list) and len(ys) == len(outs) and sem["fin"] is None
+            if good and not sem["isgen"]:
+                # the property speaks of generators; that another iterable (a tuple, a list, an iterator) is accepted is
+                # not demanded, only that IF run accepts it the values are bound correctly
                 good = (obs_runs.get(d["name"]) or {}).get("exn", "x") is None
             succeeds[d["name"]] = good
             if good:
                 for o in outs:
-                    value[(d["name"], o)] = ["yield", fid, yield_index(d, o)]
+                    value[(d["name"], o)] = ys[yield_index(d, o)]
     runs = {r["task"]: r for r in obs["runs"]}
     for d in descs:
         r = runs.get(d["name"])
@@ -586,12 +924,13 @@ def oracle_graph(descs, sinks, fluent_coords, behs, lowered, obs, fails, single=
             fails.append(("task-not-runnable", f"task {d['name']} could not be prepared/run: {r}"))
             continue
         fid = d["payload"]["fid"]
-        beh = eff_beh(behs[str(fid)], d)
+        beh = behs[str(fid)]
+        sem = node_sem(behs, d)
         outs = outs_of(d)
         if not all(succeeds[descs[p]["name"]] for _, p, _ in d["inputs"]):
             continue        # an upstream node has no value: nothing is claimed
         n0 = len(fails)
-        declared_gen = len(outs) >= 2 or beh[0] == "gen"      # a generator yields its outputs, also a single one
+        declared_gen = len(outs) >= 2 or sem.get("isgen", False)      # a generator yields its outputs, also a single one
         inames = {iname: (descs[p]["name"], o) for iname, p, o in d["inputs"]}
         exp_args = [value[inames[a[1]]] if (a[0] == "str" and a[1] in inames) else a for a in d["payload"]["args"]]
         exp_kwargs = d["payload"]["kwargs"]
@@ -611,8 +950,8 @@ def oracle_graph(descs, sinks, fluent_coords, behs, lowered, obs, fails, single=
             exp_store = {(d["name"], o): value[(d["name"], o)] for o in outs}
             if stored != exp_store or len(r["handled"]) != len(outs):
                 fails.append(("output-binding", f"task {d['name']}: stored {sorted(stored.items())}, declared {sorted(exp_store.items())}"))
-        elif beh[0] in ("gen", "tuple") and declared_gen and beh[1] != len(outs) and r["exn"] is None:
-            fails.append(("count-mismatch-ignored", f"task {d['name']}: {beh[1]} results for {len(outs)} declared outputs {outs}, run returned normally; stored {sorted(stored)}"))
+        elif "raises" not in sem and isinstance(sem["ys"], list) and declared_gen and len(sem["ys"]) != len(outs) and r["exn"] is None:
+            fails.append(("count-mismatch-ignored", f"task {d['name']}: {len(sem['ys'])} results for {len(outs)} declared outputs {outs}, run returned normally; stored {sorted(stored)}"))
         # completion is inferred from the last output: it must be the last one handled, all others before it
         if r["exn"] is None and r["handled"]:
             lasts = {(t, o): res for t, o, res in obs["lasts"]}
@@ -688,8 +1027,23 @@ def cbeh(b):
         return f"(BRaise {cstr(b[1])})"
     if b[0] == "genlen":
         return "BGenLen"
-    if b[0] == "gen":
+    if b[0] in ("gen", "genfn"):
         return f"(BGen {cnat(b[1])} {copt(b[2], cstr)})"
+    if b[0] == "genv":
+        return f"(BObjL KGenerator {clist(b[1], cval)} {copt(b[2], cstr)})"
+    if b[0] == "opaque":
+        return "BRet"          # an object that cannot be iterated, like the token
+    if b[0] == "obj":
+        return f"(BObj {OBJ_KINDS[b[1]][0]} {cnat(b[2])} {copt(b[3], cstr)})"
+    if b[0] == "lines":
+        return f"(BObjL {LINE_KINDS[b[1]]} {clist([['str', l] for l in b[2]], cval)} None)"
+    if b[0] == "val":
+        ys = iter_desc(realise_val(b[1]))
+        if ys == "?":
+            raise ValueError(f"returned literal {b[1]} iterates over values outside the pool")
+        return f"(BVal {cval(b[1])} {copt(ys, lambda l: clist(l, cval))})"
+    if b[0] != "tuple":
+        raise ValueError(b[0])
     return f"(BTuple {cnat(b[1])})"
 
 
@@ -799,7 +1153,7 @@ def gen_fluent_spec(rng):
     if (ny or 1) * nsrc <= 6 and rng.random() < 0.5:
         branch = {"nlits": rng.choice([1, 2, 4, 11]), "first": rng.choice([None, 1, 2])}
     return {"kind": "fluent", "nsrc": nsrc, "src_yields": ny, "steps": steps, "publish_seed": rng.randrange(2**32), "mismatch": rng.random() < 0.15,
-            "mseed": rng.randrange(2**32), "branch": branch}
+            "mseed": rng.randrange(2**32), "branch": branch, "values": rng.random() < 0.7}
 
 
 def build_fluent(spec):
@@ -814,12 +1168,13 @@ def build_fluent(spec):
     def mk(ny):
         n = 1 if ny is None else ny
         if ny is None:
-            beh = ["ret"]
+            # no `yields`: one output, and whatever the callable returns is its value
+            beh = gen_value_beh(mr) if (spec.get("values") and mr.random() < 0.6) else ["ret"]
         else:
             k = ny
             if spec["mismatch"] and mr.random() < 0.5:
                 k = max(0, ny + mr.choice([-1, 1, -2, 2]))
-            beh = ["gen", k, None]
+            beh = ["gen", k, None] if not spec.get("values") else gen_gen_beh(mr, k)
         f = make_callable(fid[0], beh)
         behs[str(fid[0])] = beh
         fid[0] += 1
@@ -1005,7 +1360,8 @@ def gen_fprog_spec(rng):
             steps.append(["binop", a, b, pi])
             acts.append(list(dims))
             nnodes += size
-    return {"kind": "fprog", "pool": pool, "steps": steps, "publish_seed": rng.randrange(2**32)}
+    behs = {str(f): gen_value_beh(rng) for f in sorted({e["fid"] for e in pool}) if rng.random() < 0.5}
+    return {"kind": "fprog", "pool": pool, "steps": steps, "publish_seed": rng.randrange(2**32), "behs": behs}
 
 
 def realise_payload(e, funcs, objs, fluent):
@@ -1051,9 +1407,10 @@ def build_fprog(spec):
     pool = spec["pool"]
     nb = max(e["fid"] for e in pool) + 1
     behs = {str(f): ["ret"] for f in range(nb + len(BUILTIN_REDUCTIONS))}
+    behs.update({k: v for k, v in spec.get("behs", {}).items() if int(k) < nb})     # what the author's callables return (always ONE value)
     funcs = {}
     for f in range(nb + len(BUILTIN_REDUCTIONS)):
-        funcs[f] = make_callable(f, ["ret"])
+        funcs[f] = make_callable(f, behs[str(f)])
         funcs[f].batchable = True
     objs, held = [], []
     for e in pool:
@@ -1321,13 +1678,20 @@ def oracle_job(spec, obs, fails):
             fails.append(("callable-not-called", f"task {r['task']}: the callable was never called (run raised {r['exn']})"))
         outs = sorted(set(t["oschema"]))
         beh = spec["behs"][str(t["fid"])]
+        sem = sem_of(beh, t["fid"], len(r["call"][0]) if r["call"] else 0)
+        got = [(o, v) for _, o, v, _ in r["handled"]]
+        if len(outs) == 1 and "raises" not in sem and not sem["isgen"] and r["call"] is not None:
+            # a single declared output and no generator: whatever object the callable returned is the value
+            if r["exn"] is not None:
+                fails.append(("run-raised-unexpectedly", f"task {r['task']} ({beh}, single output {outs}) raised {r['exn']} after its callable returned"))
+            elif got != [(outs[0], sem["ret"])]:
+                fails.append(("output-binding", f"task {r['task']} ({beh}): stored {got}, the returned object is {sem['ret']}"))
         if r["exn"] is None:
-            unpack = len(outs) >= 2 or (len(outs) == 1 and beh[0] == "gen")
-            if unpack and beh[0] in ("gen", "tuple") and beh[1] != len(outs):
-                fails.append(("count-mismatch-ignored", f"task {r['task']}: {beh[1]} results for {len(outs)} declared outputs, run returned normally"))
-            got = [(o, v) for _, o, v, _ in r["handled"]]
-            if unpack and beh[0] in ("gen", "tuple") and beh[1] == len(outs):
-                exp = [(o, ["yield", t["fid"], i]) for i, o in enumerate(outs)]
+            unpack = "raises" not in sem and isinstance(sem["ys"], list) and (len(outs) >= 2 or (len(outs) == 1 and sem["isgen"]))
+            if unpack and len(sem["ys"]) != len(outs):
+                fails.append(("count-mismatch-ignored", f"task {r['task']}: {len(sem['ys'])} results for {len(outs)} declared outputs, run returned normally"))
+            if unpack and len(sem["ys"]) == len(outs):
+                exp = [(o, sem["ys"][i]) for i, o in enumerate(outs)]
                 if got != exp:
                     fails.append(("output-binding", f"task {r['task']}: stored {got}, contract (key-sorted = yield order) {exp}"))
             for tt, o, v, _ in r["handled"]:
@@ -1416,6 +1780,33 @@ def fixed_fprog_specs():
     return out
 
 
+def kind_matrix_specs(thorough):
+    """small scope, exhaustively: every kind of returned object x every number k of values it holds x the number of
+    declared outputs n (k = 0..n+1): one source node per kind, and for n = 1 one consumer per source"""
+    out = []
+    for n in ((1, 2, 3, 11) if thorough else (1, 2)):
+        for k in (range(0, n + 2) if n <= 3 else (n - 1, n, n + 1)):
+            behs = [["gen", k, None], ["tuple", k], ["genfn", k, None], ["genfn", k, "RuntimeError"], ["genv", [RETVALS[(3 * i + k) % len(RETVALS)] for i in range(k)], None]]
+            behs += [["obj", kind, k, None] for kind in sorted(OBJ_KINDS)]
+            behs += [["obj", kind, k, "RuntimeError"] for kind in sorted(OBJ_KINDS) if OBJ_KINDS[kind][1]] + [["gen", k, "RuntimeError"]]
+            if k <= 3:
+                behs += [["lines", kind, lines_of(0, k)] for kind in sorted(LINE_KINDS)]
+            if k == 0:
+                behs += [["val", v] for v in RETVALS[1:]] + [["opaque", kind] for kind in OPAQUE_KINDS] + [["ret"]]
+            outs = None if n == 1 else numeric_outs(n, True)
+            nodes = [{"name": f"s{i}", "outputs": outs, "payload": {"kind": "tuple", "fid": i, "args": [], "kwargs": []}, "inputs": []} for i in range(len(behs))]
+            bd = {str(i): b for i, b in enumerate(behs)}
+            sinks = list(range(len(behs)))
+            if n == 1:
+                for i in range(len(behs)):
+                    nodes.append({"name": f"c{i}", "outputs": None, "payload": {"kind": "tuple", "fid": len(behs) + i, "args": [["lit", 1], ["str", "x"]], "kwargs": []},
+                                  "inputs": [["x", i, "0"]]})
+                    bd[str(len(behs) + i)] = ["ret"]
+                sinks = list(range(len(behs), 2 * len(behs)))
+            out.append({"kind": "graph", "flavour": "kind-matrix", "nodes": nodes, "sinks": sinks, "behs": bd, "publish_seed": 10 * n + k})
+    return out
+
+
 def gen_specs(ctx, rng):
     specs = list(WITNESSES) + stored(fixed_fprog_specs())
     for fl, n in (("plain", ctx.n(110, 5000)), ("odd", ctx.n(100, 4000)), ("mismatch", ctx.n(80, 3000)), ("many-outputs", ctx.n(30, 1000))):
@@ -1427,6 +1818,7 @@ def gen_specs(ctx, rng):
     specs += [gen_fprog_spec(rng) for _ in range(ctx.n(60, 2500))]
     specs += [gen_fbuild_spec(rng) for _ in range(ctx.n(80, 3000))]
     specs += small_fbuild_specs(ctx.tier == "thorough")
+    specs += kind_matrix_specs(ctx.tier == "thorough")
     # small scope, exhaustively: every output count n against every yield count n-2..n+2 (hand-built, zero-padded names), and n coordinates through fluent
     for n in (list(range(1, 61)) if ctx.tier == "thorough" else [1, 2, 3, 9, 10, 11, 12, 13, 20, 30]):
         for k in range(max(0, n - 2), n + 3):
@@ -1463,6 +1855,12 @@ def run(ctx, res):
         terms[kind].append(term)
         metas[kind].append(spec)
         res.count("case:" + spec["kind"] + (":" + spec["flavour"] if spec.get("flavour") else ""))
+        for b in (spec.get("behs") or {}).values():
+            # what the callables of the case return (model kind of the returned object)
+            res.count("callable-returns:" + (OBJ_KINDS[b[1]][0] if b[0] == "obj" else LINE_KINDS[b[1]] + "(file)" if b[0] == "lines" else
+                                             "generator" if b[0] in ("gen", "genfn", "genv", "genlen") else "KIterable(tuple)" if b[0] == "tuple" else
+                                             "not-iterable" if b[0] in ("ret", "opaque") or (b[0] == "val" and iter_desc(realise_val(b[1])) is None) else
+                                             "KIterable(literal)" if b[0] == "val" else b[0]))
         if spec["kind"] == "fprog":
             # how one callable's nodes differ in their number of inputs within one program (the re-use the generator is after)
             by = {}
@@ -1487,8 +1885,17 @@ def run(ctx, res):
         if len(res.samples) < 4 and spec["kind"] in ("graph", "fluent") and info.get("edges", 0) >= 2 and spec not in WITNESSES:
             res.samples.append({"kind": spec["kind"], "nodes": [{k: d[k] for k in ("name", "outputs", "inputs")} for d in info["descs"]][:6],
                                 "runs": [{k: r[k] for k in ("task", "call", "handled", "exn")} for r in runs][:4]})
-    for kind, checker in (("graph", "check_graph"), ("job", "check_job"), ("fnode", "check_fluent"), ("fbuild", "check_fbuild")):
-        r, logs = coq_results("C10", HEADER, terms[kind], checker, shard=400 if kind in ("fnode", "fbuild") else ctx.n(55, 60), tag=kind)   # coqc time grows faster than linearly with the size of a cases file
+    groups = (("graph", "check_graph"), ("job", "check_job"), ("fnode", "check_fluent"), ("fbuild", "check_fbuild"))
+
+    def coq_group(kind, checker):
+        # coqc time grows faster than linearly with the size of a cases file
+        return coq_results("C10", HEADER, terms[kind], checker, shard=400 if kind in ("fnode", "fbuild") else ctx.n(55, 60), tag=kind)
+    # the few shards of the three small groups are evaluated (one after the other) while the graph shards are
+    from concurrent.futures import ThreadPoolExecutor
+    with ThreadPoolExecutor(max_workers=1) as ex:
+        small = ex.submit(lambda: [coq_group(k, c) for k, c in groups[1:]])
+        outs = [coq_group(*groups[0])] + small.result()
+    for (kind, checker), (r, logs) in zip(groups, outs):
         res.corr_checked += len(r)
         for ok, spec in zip(r, metas[kind]):
             if ok is not True:
@@ -1502,9 +1909,11 @@ def search(ctx, res):
     from common import Result
     rng = ctx.sub_rng("search")
     listed = {f["signature"] for f in load_findings().get("open", []) if f.get("property") == "C10"}
-    for i in range(2000):
-        spec = [gen_graph_spec(rng, "plain"), gen_shared_spec(rng), gen_fluent_spec(rng), gen_graph_spec(rng, "mismatch"), gen_graph_spec(rng, "many-outputs"),
-                gen_fprog_spec(rng), gen_fbuild_spec(rng)][i % 7]
+    fixed = kind_matrix_specs(False)       # first the small scope of returned-object kinds, then random cases
+    for i in range(2000 + len(fixed)):
+        spec = fixed[i] if i < len(fixed) else [
+            gen_graph_spec(rng, "plain"), gen_shared_spec(rng), gen_fluent_spec(rng), gen_graph_spec(rng, "mismatch"), gen_graph_spec(rng, "many-outputs"),
+            gen_fprog_spec(rng), gen_fbuild_spec(rng), gen_job_spec(rng)][i % 8]
         try:
             _, _, fails, info = run_spec(spec)
         except Exception as e:
